@@ -34,12 +34,24 @@ This formatter outputs the issues as XML.
 
 """
 import logging
+import re
 import sys
 from xml.etree import ElementTree as ET  # nosec: B405
 
 from bandit.core import docs_utils
 
 LOG = logging.getLogger(__name__)
+
+
+# characters that may not occur in an XML 1.0 document, not even escaped
+_XML_ILLEGAL = re.compile(
+    "[^\t\n\r\x20-\ud7ff\ue000-\ufffd\U00010000-\U0010ffff]"
+)
+
+
+def _xml_safe(text):
+    """Spell characters XML cannot carry (C0 controls, ...) as \\xNN."""
+    return _XML_ILLEGAL.sub(lambda m: "\\x%02x" % ord(m.group()), str(text))
 
 
 def report(manager, fileobj, sev_level, conf_level, lines=-1):
@@ -58,7 +70,7 @@ def report(manager, fileobj, sev_level, conf_level, lines=-1):
     for issue in issues:
         test = issue.test
         testcase = ET.SubElement(
-            root, "testcase", classname=issue.fname, name=test
+            root, "testcase", classname=_xml_safe(issue.fname), name=test
         )
 
         text = (
@@ -70,8 +82,8 @@ def report(manager, fileobj, sev_level, conf_level, lines=-1):
             issue.severity,
             issue.confidence,
             issue.cwe,
-            issue.text,
-            issue.fname,
+            _xml_safe(issue.text),
+            _xml_safe(issue.fname),
             issue.lineno,
         )
         ET.SubElement(
@@ -79,7 +91,7 @@ def report(manager, fileobj, sev_level, conf_level, lines=-1):
             "error",
             more_info=docs_utils.get_url(issue.test_id),
             type=issue.severity,
-            message=issue.text,
+            message=_xml_safe(issue.text),
         ).text = text
 
     tree = ET.ElementTree(root)
